@@ -198,11 +198,27 @@ func poolRun(in *bufio.Scanner, out *bufio.Writer) {
 			}
 			recycled[i] = runCall(&c.Calls[i], true, reg)
 		}
+		// plain recycling: nothing is poisoned, the objects come back as their last use left them (what a long-running
+		// process sees); the history runs twice over the same pools, so that the first round is "whatever came before"
+		validate.VerifReset(validate.VerifRecycle, false)
+		plain := make([]callOutcome, len(c.Calls))
+		for round := 0; round < 2; round++ {
+			for i := range c.Calls {
+				var reg strfmt.Registry
+				if i == 0 && c.PanicAt > 0 {
+					reg = &panicRegistry{Registry: strfmt.Default, panicAt: c.PanicAt}
+				}
+				plain[i] = runCall(&c.Calls[i], true, reg)
+			}
+		}
 		validate.VerifReset(validate.VerifOff, false)
 		var diffs []map[string]interface{}
 		for i := range c.Calls {
 			if c.PanicAt > 0 && i == 0 {
 				continue // the aborted call itself has no outcome to compare
+			}
+			if !sameOutcome(ref[i], plain[i]) {
+				diffs = append(diffs, map[string]interface{}{"call": i, "mode": "plain recycling, second round", "fresh": ref[i], "got": plain[i]})
 			}
 			if !sameOutcome(ref[i], tenure[i]) {
 				diffs = append(diffs, map[string]interface{}{"call": i, "mode": "tenure", "fresh": ref[i], "got": tenure[i]})
